@@ -384,6 +384,11 @@ func (o *lifeOracle) c15(e *Env, si *StepInfo) {
 				o.once(e, "C15", "C15.distinct", lab, "same-provider-chosen-twice", fmt.Sprint(oid), fmt.Sprintf("order %d: provider %s chosen for two new shards", oid, fmtAddr(sh.Sp)))
 			}
 			seen[sh.Sp] = true
+			if oi := e.T.Orders[oid]; oi != nil && oi.TimedOut[sh.Sp] {
+				if _, listed := existing[sh.Sp]; !listed {
+					o.once(e, "C15", "C15.distinct", lab, "provider-timed-out-earlier-on-order", fmt.Sprint(oid), fmt.Sprintf("order %d: new shard %d assigned to %s, which timed out on a shard of that order earlier (the record of that shard has been cleared since)", oid, sh.Id, fmtAddr(sh.Sp)))
+				}
+			}
 			if old, dup := existing[sh.Sp]; dup {
 				o.once(e, "C15", "C15.distinct", lab, "provider-already-holds-shard-of-order", fmt.Sprint(oid), fmt.Sprintf("order %d: new shard %d assigned to %s which already holds or timed out on shard %d of that order", oid, sh.Id, fmtAddr(sh.Sp), old))
 			}
